@@ -5,6 +5,10 @@ import json, subprocess
 BASELINE = json.load(open('/root/.vp/BASELINE.json'))['cmd']
 
 CHECKS = {
+ "C06": dict(level="exploration", design="DESIGN.md §4 C06",
+   text="Every string over a 16-symbol alphabet up to length 5/6, every token sequence over a 27-token alphabet up to length 4/5 and the scaling families (literals of 1..400 digits, bracket nesting to 10000, a program truncated at every position and continued by unterminated strings, comments, escapes and invalid bytes) are parsed by the real front end under lexer+parser fuel; error spans, the error display and the absence of any execution on error are checked on every rejected input, also through the built binary.",
+   note="Fuel (loop iterations of the lexer plus TLexer.Next/Snapshot calls, 2000 per byte against a measured maximum of about 50) stands in for 'finite time'; characters outside the alphabet and longer inputs are not covered.",
+   technique="exhaustive enumeration of all strings / token sequences up to a length bound under step fuel, with direct invariant checks on every result"),
  "C01": dict(level="exploration", design="DESIGN.md §4 C01",
    text="Bounded-exhaustive conformance of the real pipeline (parser, symbol rewriter, bytecode compiler, VM built from the working tree) against an executable reference model of the documented language: every program of the operand-source x statement-context and operand-source x expression-context products (about a million sessions in the quick tier) is executed on a fresh VM and on the model and compared on value, output and error class, statement by statement.",
    note="Trusts the reference model refsem (self-tested against every TestCalc row and Readme example before each run) and the domain restriction stated in DESIGN.md §3.3; programs outside the enumerated families and bounds are not covered.",
